@@ -87,7 +87,7 @@ def flow_desc(draw):
 
 @st.composite
 def ms_desc(draw):
-    n = draw(st.sampled_from([2, 2, 3]))
+    n = draw(st.sampled_from([2, 3, 3, 4]))
     sym = draw(st.booleans())
     toc = draw(st.booleans())
     if toc:
@@ -98,7 +98,10 @@ def ms_desc(draw):
     return dict(n=n, symmetry=sym, gen=draw(st.booleans()), ny=nys, toc=toc, nx=draw(st.integers(2, 3)),
                 taper=[draw(S.fl(0.5, 1.0, 1.0)) for _ in range(n)], span=[draw(S.fl(0.8, 3.0, 1.0)) for _ in range(n)],
                 sweep=[draw(S.fl(0.0, 0.4, 0.0)) for _ in range(n)], viscous=toc and draw(st.booleans()),
-                joining=draw(st.booleans()))
+                joining=draw(st.booleans()),
+                # user-supplied section meshes given in frames of their own: the unification aligns the leading edges of
+                # neighbouring sections (shift_uni_mesh, default True), so a translation per section is admissible
+                offsets=[[draw(S.fl(-1.0, 1.0, 0.0)), draw(S.fl(-0.5, 0.5, 0.0)), draw(S.fl(-0.5, 0.5, 0.0))] for _ in range(n)])
 
 
 @st.composite
@@ -294,7 +297,10 @@ def verdict_valid(desc):
     if "mesh" in t:
         out.label("wing_type=" + t["mesh"]["wing_type"], "symmetric" if t["mesh"]["symmetry"] else "full_span")
     if "ms" in t:
-        out.label("ms_gen" if t["ms"]["gen"] else "ms_user_meshes", "ms_sym" if t["ms"]["symmetry"] else "ms_full")
+        out.label("ms_gen" if t["ms"]["gen"] else "ms_user_meshes", "ms_sym" if t["ms"]["symmetry"] else "ms_full",
+                  "ms_n=%d" % t["ms"]["n"])
+        if not t["ms"]["gen"] and np.any(np.array(t["ms"].get("offsets", [[0.0]])) != 0.0):
+            out.label("ms_sections_in_own_frames")
 
     s1 = Script(copy.deepcopy(t))
     users = s1.surfaces
